@@ -43,6 +43,16 @@ func modeOf(s string) collector.DecodingMode {
 	panic("bad mode " + s)
 }
 
+// modeFor: the decoding mode to configure for a case. Strict is the documented default, so for
+// half of the strict cases (chosen by the size of the case, i.e. deterministically) the field is
+// left unset: an unconfigured collecting process must behave exactly like a strict one.
+func modeFor(s string, salt int) collector.DecodingMode {
+	if s == "S" && salt%2 == 0 {
+		return ""
+	}
+	return modeOf(s)
+}
+
 // parsePackets: byte-string atoms up to ";" form one packet.
 func parsePackets(t []string) [][]byte {
 	var out [][]byte
@@ -161,19 +171,19 @@ func decodeOne(cp *collector.CollectingProcess, pkt []byte) (s string) {
 func decCase(prop string, toks []string, emit func(string)) {
 	switch prop {
 	case "C03":
-		cp := newCollector(modeOf(toks[0]), "tcp")
+		cp := newCollector(modeFor(toks[0], len(toks)), "tcp")
 		for _, p := range parsePackets(toks[1:]) {
 			emit(decodeOne(cp, p))
 		}
 	case "C04":
-		cp := newCollector(modeOf(toks[0]), "tcp")
+		cp := newCollector(modeFor(toks[0], len(toks)), "tcp")
 		for _, p := range parsePackets(toks[1:]) {
 			emit(decodeOne(cp, p) + " @ " + showSnapshot(cp))
 		}
 	case "C17":
 		pkts := parsePackets(toks)
 		for _, m := range []string{"S", "K", "D"} {
-			cp := newCollector(modeOf(m), "tcp")
+			cp := newCollector(modeFor(m, len(toks)), "tcp")
 			for _, p := range pkts {
 				emit(decodeOne(cp, p))
 			}
